@@ -59,11 +59,35 @@ func runC16(c *Ctx) {
 	isOnceDo := func(e *Event, f *types.Var) bool {
 		return e.Kind == EvCall && e.callName() == "(*sync.Once).Do" && len(e.Args) > 0 && e.Args[0].isFieldAddrOf(f)
 	}
-	isCount := func(e *Event, m string) bool {
-		if e.Kind != EvCall || len(e.Args) == 0 || !strings.HasSuffix(e.callName(), ".Int32)."+m) {
+	// Inc / Dec, or Add(+1) / Add(-1), which is how they are defined
+	isCounterOp := func(e *Event, f *types.Var, m string) bool {
+		if e.Kind != EvCall || len(e.Args) == 0 || !e.Args[0].isFieldAddrOf(f) {
 			return false
 		}
-		return e.Args[0].isFieldAddrOf(count)
+		if strings.HasSuffix(e.callName(), ".Int32)."+m) {
+			return true
+		}
+		if strings.HasSuffix(e.callName(), ".Int32).Add") && len(e.Args) == 2 {
+			d, isC := e.Args[1].intConst()
+			return isC && ((m == "Inc" && d == 1) || (m == "Dec" && d == -1))
+		}
+		return false
+	}
+	isCount := func(e *Event, m string) bool { return isCounterOp(e, count, m) }
+	// syntactic classification of a writer call site on a counter field
+	counterSite := func(call *ssa.Call) string {
+		m := call.Call.StaticCallee().Name()
+		if m == "Add" && len(call.Call.Args) == 2 {
+			if k, isK := call.Call.Args[1].(*ssa.Const); isK && k.Value != nil {
+				switch k.Int64() {
+				case 1:
+					return "Inc"
+				case -1:
+					return "Dec"
+				}
+			}
+		}
+		return m
 	}
 
 	// (1)+(2): the loops
@@ -269,7 +293,7 @@ func runC16(c *Ctx) {
 				if !ok || !sameField(fieldVar(fa.X.Type(), fa.Field), count) {
 					continue
 				}
-				m := call.Call.StaticCallee().Name()
+				m := counterSite(call)
 				if m == "Load" || m == "String" {
 					continue
 				}
@@ -355,7 +379,7 @@ func runC16(c *Ctx) {
 					if !ok || !sameField(fieldVar(fa.X.Type(), fa.Field), ecount) {
 						continue
 					}
-					switch call.Call.StaticCallee().Name() {
+					switch counterSite(call) {
 					case "Load", "String":
 					case "Inc":
 						incs++
@@ -383,7 +407,7 @@ func runC16(c *Ctx) {
 					if isOnceDo(e, eonce) {
 						onceAt, onceDepth = i, e.Depth
 					}
-					if e.Kind == EvCall && len(e.Args) > 0 && strings.HasSuffix(e.callName(), ".Int32).Inc") && e.Args[0].isFieldAddrOf(ecount) {
+					if isCounterOp(e, ecount, "Inc") {
 						incAt = i
 						if !(onceAt >= 0 && e.Depth > onceDepth) {
 							ok = false
